@@ -1,7 +1,7 @@
 (* C02 — statements only.  Every theorem is proved in Lemmas1.v / Lemmas2.v / Lemmas.v. *)
 From Coq Require Import ZArith List Bool String.
 Import ListNotations.
-From GV Require Import Common.Wire gen.Gen_tables C12.Model C02.Model C02.Lemmas.
+From GV Require Import Common.Wire gen.Gen_tables C12.Model gen.Gen_codecs C02.CodecModel C02.Model C02.Lemmas.
 Open Scope Z_scope.
 
 (* the object <-> name map built by GlueSerializer.id is a bijection for every sequence of registrations, never renames,
@@ -47,3 +47,50 @@ Theorem graph_roundtrip : forall (enc dec : Z -> list field -> list field),
   /\ save enc h' 0 = save enc h root.
 Proof. exact Lemmas.graph_roundtrip. Qed.
 Print Assumptions graph_roundtrip.
+
+(* ---- field-level table of the registered saver / loader functions (gen/Gen_codecs.v, regenerated from the source by `ast`):
+   saver paths with the keys they write, loader paths with the keys they test and read.  The named lists
+   (legit_unwritten_reads, dynamic_classes, legit_value_tests, legit_conditional_keys, legit_unfed_params) are in CodecModel.v,
+   each entry with its reason. *)
+
+(* every key a loader path reads without testing for it is written by every saver path whose record can reach that path *)
+Theorem codec_reads_written : forall sc lc p b k, In sc saver_codecs -> In lc loader_codecs ->
+  sc_cls sc = lc_cls lc -> sc_ver sc = lc_ver lc -> In p (sc_paths sc) -> In b (lc_paths lc) ->
+  sp_dynamic p = false -> lp_dynamic b = false -> compatible p b = true -> In k (lp_reads b) ->
+  In k (spath_keys p) \/ In k framework_keys \/ In (cname (sc_cls sc), cname k) legit_unwritten_reads.
+Proof. exact Lemmas.codec_reads_written. Qed.
+Print Assumptions codec_reads_written.
+
+Theorem codec_dynamic_listed : forall sc lc p b, In sc saver_codecs -> In lc loader_codecs ->
+  sc_cls sc = lc_cls lc -> sc_ver sc = lc_ver lc -> In p (sc_paths sc) -> In b (lc_paths lc) ->
+  sp_dynamic p = true \/ lp_dynamic b = true -> In (cname (sc_cls sc)) dynamic_classes.
+Proof. exact Lemmas.codec_dynamic_listed. Qed.
+Print Assumptions codec_dynamic_listed.
+
+(* every record a saver can return is accepted by some path of the loader registered for the same class and version *)
+Theorem codec_every_record_loadable : forall sc p, In sc saver_codecs -> In p (sc_paths sc) -> ~ In (sc_cls sc) codec_write_only ->
+  exists lc b, In lc loader_codecs /\ lc_cls lc = sc_cls sc /\ lc_ver lc = sc_ver sc /\ In b (lc_paths lc)
+               /\ (sp_dynamic p = true \/ compatible p b = true).
+Proof. exact Lemmas.codec_every_record_loadable. Qed.
+Print Assumptions codec_every_record_loadable.
+
+(* no stored value depends on a test (conditional expression, comparison, a local bound or mutated under a condition), except the named ones *)
+Theorem codec_values_unconditional : forall sc p k, In sc saver_codecs -> In p (sc_paths sc) -> In (k, true) (sp_keys p) ->
+  In (cname (sc_cls sc), cname k) legit_value_tests.
+Proof. exact Lemmas.codec_values_unconditional. Qed.
+Print Assumptions codec_values_unconditional.
+
+(* a key written on one path of a saver is written on every path of it, except the named ones, and a named one is written
+   exactly on the paths singled out by its discriminating key (polarity true: where that key is written; false: where it is not) *)
+Theorem codec_conditional_keys_listed : forall sc p q k, In sc saver_codecs -> In p (sc_paths sc) -> In q (sc_paths sc) ->
+  In k (spath_keys p) -> ~ In k (spath_keys q) ->
+  exists d pol, In (cname (sc_cls sc), cname k, d, pol) legit_conditional_keys
+    /\ forall r, In r (sc_paths sc) -> memZ k (spath_keys r) = Bool.eqb (writes_named d r) pol.
+Proof. exact Lemmas.codec_conditional_keys_listed. Qed.
+Print Assumptions codec_conditional_keys_listed.
+
+(* when a loader path builds the object by calling the class, every __init__ parameter gets an argument computed from the record, except the named ones *)
+Theorem codec_ctor_fed : forall lc b args prm, In lc loader_codecs -> In b (lc_paths lc) -> lp_ctor b = Some args ->
+  In (prm, false) args -> In (cname (lc_cls lc), cname prm) legit_unfed_params.
+Proof. exact Lemmas.codec_ctor_fed. Qed.
+Print Assumptions codec_ctor_fed.
